@@ -156,8 +156,16 @@ class ExprMixin(CallMixin):
             return alts[self.global_choice[gk]]
         if name in module.assigns:
             vals = module.assigns[name]
+            sk = f"{module.name}.{name}"
+            if sk in self.shared_objs:
+                return self.shared_objs[sk]
             try:
-                return from_py(self.repo.fold(module, ast.Name(id=name, ctx=ast.Load())))
+                val = from_py(self.repo.fold(module, ast.Name(id=name, ctx=ast.Load())))
+                if isinstance(val, (PyDict, PyList)):
+                    val.created_in = None
+                    val.shared_name = sk
+                    self.shared_objs[sk] = val
+                return val
             except NotConst:
                 pass
             if len(vals) == 1:
@@ -664,6 +672,9 @@ class ExprMixin(CallMixin):
                     raise _Raise(self.make_exc("builtins.KeyError"), self.cur_where)
                 self.may_raise("builtins.KeyError", f"[{idx!r}]")
                 return Sym("item", base, idx)
+            hit = self._same_opaque_key(base, idx)
+            if hit is not None:
+                return hit
             return self.dict_lookup_opaque(base, idx, None, subscript=True)
         if isinstance(base, RefV) or (isinstance(base, Sym) and base.op in ("attr",) and not isinstance(idx, Const)):
             # typing-style subscripts (List[int]) and table lookups on external objects
@@ -673,6 +684,19 @@ class ExprMixin(CallMixin):
             return self.getitem(from_py(base.v), idx, module, node)
         self.may_raise("builtins.KeyError", f"{_describe(base)}[{_describe(idx)}]")
         return Sym("item", base, idx)
+
+    def _same_opaque_key(self, d: PyDict, key: V) -> Optional[V]:
+        """A symbolic key stored earlier on this path and looked up again with the very same term."""
+        if not d.opaque_keys:
+            return None
+        try:
+            r = repr(key)
+        except Exception:
+            return None
+        for k, v in reversed(d.opaque_keys):
+            if repr(k) == r:
+                return v
+        return None
 
     def dict_lookup_opaque(self, d: PyDict, key: V, default: Optional[V], subscript: bool = False) -> V:
         """Lookup with a non-constant key: partition what the key can be by the lookup result."""
@@ -914,6 +938,12 @@ class ExprMixin(CallMixin):
             return False
         if isinstance(container, PyDict):
             kk = dict_key(item)
+            if kk is None and self._same_opaque_key(container, item) is not None:
+                return True
+            if getattr(container, "shared_name", None) and kk is None:
+                # a container shared between calls: what earlier calls stored is unknown; the miss path is analysed and
+                # the cache-key rule (heval.cache_findings) is what makes the hit path equivalent to it
+                self.event("shared_miss_assumed", target=container.shared_name)
             if kk is not None and not container.opaque_keys:
                 return kk in container.items
             if kk is not None and kk in container.items:
